@@ -155,3 +155,27 @@ m("putsyncedto-keep-old-hash", ["C15"], "waddrmgr/db.go",
 	}""")
 m("startup-no-rollback-loop", ["C15"], "wallet/wallet.go",
   "			if bytes.Equal(hash[:], chainHash[:]) {\n				break\n			}\n			rollback = true", "			if bytes.Equal(hash[:], chainHash[:]) || true {\n				break\n			}\n			rollback = true")
+
+# ---------------- wallet: transaction creation (C06) ----------------
+m("eligible-no-maturity", ["C06"], "wallet/createtx.go",
+  "			if !confirmed(target, output.Height, bs.Height) {\n				continue\n			}", "			_ = target")
+m("eligible-no-minconf", ["C06"], "wallet/createtx.go",
+  "		if !confirmed(minconf, output.Height, bs.Height) {\n			continue\n		}", "")
+m("eligible-no-lock-check", ["C06"], "wallet/createtx.go",
+  "		if w.LockedOutpoint(output.OutPoint) {\n			continue\n		}", "")
+m("eligible-no-account-check", ["C06"], "wallet/createtx.go",
+  "		if addrAcct != account {\n			continue\n		}", "		_ = addrAcct")
+m("eligible-no-scope-check", ["C06"], "wallet/createtx.go",
+  "		if keyScope != nil && scopedMgr.Scope() != *keyScope {\n			continue\n		}", "		_ = scopedMgr")
+m("utxos-include-leased", ["C06", "C12"], "wtxmgr/tx.go",
+  "	return s.fetchCredits(ns, false, false, true)", "	return s.fetchCredits(ns, true, false, true)")
+m("explicit-skip-ineligible", ["C06"], "wallet/createtx.go",
+  """				if !ok {
+					return fmt.Errorf("selected outpoint "+
+						"not eligible for "+
+						"spending: %v", outpoint)
+				}""", """				if !ok {
+					continue
+				}""")
+m("maturity-off-by-one", ["C06"], "wallet/createtx.go",
+  "			target := int32(w.chainParams.CoinbaseMaturity)\n", "			target := int32(w.chainParams.CoinbaseMaturity) - 1\n")
